@@ -1,5 +1,13 @@
 # id -> (technique, level_claimed.text, design_ref)
 CLAIMED = {
+    "C01": (
+        "field-write ownership over the whole repository, after-X-must-Y dataflow on the CFG (name store => index rebuild, row replacement => length store; deferred calls counted), store pairing in the insertion block, control-dependence and reachability for the rejection path, override completeness from method sets, per-iteration event counting for the site-removal rebuild, linear bounds for by-index accessors and the FilterLength predicate",
+        "Decides statically the index-consistency clauses of C01 for every history of operations: (1) a row name is written in place only inside seqbag/align methods, and every path from such a write to a normal return rebuilds the name index (reindex assigns a fresh map and inserts every row under its current name); "
+        "SetName is called only on detached sequences (results of LongestORF/Clone/NewSequence); (2) both AddSequenceChar insert the same new row object into the name index (under the name it was created with) and the ordered list in one block; the alignment variant's only error return is controlled by length != -1 && length != len(sequence) "
+        "and no write to the receiver can execute before it (reject leaves unchanged); (3) align.length is written only by the confirmed set of functions; every *align method that replaces or re-slices a row buffer stores the cached length afterwards on all normal paths (TrimSequences/Compress with the same value as the new row length; site removal by exactly the "
+        "removed-column counter, each column being either kept or counted, exactly one); *align re-declares every exported seqbag method that replaces row buffers or re-adds rows with new buffers (AddSequence, AddSequenceChar, Clear, Replace, Translate) and each override stores/verifies the length; (4) by-index accessors index the row list within [0,N) on every path; "
+        "(5) FilterLength keeps a row only within both given bounds. NOT decided: equality with the list-of-(name,sequence) reference model over arbitrary histories, duplicate-name renaming text, content of shuffles/samples, an emptied alignment keeping its old cached length after the inherited FilterLength (cross-reference in DESIGN.md).",
+        "DESIGN.md §3 C01"),
     "C15": (
         "linear window-confinement proof on go/ssa (Fourier-Motzkin over path conditions and loop induction facts), replacement-mode dispatch lint on the syntax tree with go/types, protection-test cell identity by canonical address, dominance/path rules for reference exclusion and per-column table freshness, write-effect frame analysis",
         "Decides statically the window, replacement-dispatch, protection and frame clauses of C15 on Mask, MaskOccurences and MaskUnique, for every window and option: each residue store of Mask has start <= i <= start+length-1 and 0 <= i <= L-1 on every path (confinement and truncation), the start guard accepts exactly 0<=start<=L; "
